@@ -16,7 +16,7 @@ from . import common as cm
 
 NAME = "covmodel"
 PROPERTY = "C14"
-TIERS = {"quick": (6000, 90.0), "thorough": (300000, 1800.0)}
+TIERS = {"quick": (3500, 90.0), "thorough": (300000, 1800.0)}
 CHANGE_KINDS = {"set", "bounds", "boundary", "alias_probe"}
 OBSERVE_KINDS = {"set", "bounds", "boundary", "alias_probe"}
 RULE = ("one run = seeded history (3-12 ops) of public mutations on one CovModel (17 classes x "
